@@ -1175,6 +1175,103 @@ def r_tzfamily(E):
     return res
 
 
+# ---------------------------------------------------------------------------------------------- R-REINDEXCOVER
+_RC_POSITIVE = '''
+from functools import reduce
+from operator import add
+def total(frames):
+    hours = frames[0].index.join(frames[-1].index, how="outer")
+    return reduce(add, (f.reindex(hours, fill_value=0) for f in frames))
+'''
+_RC_NEGATIVE = '''
+from functools import reduce
+from operator import add
+def total(frames):
+    hours = reduce(lambda a, b: a.join(b, how="outer"), (f.index for f in frames))
+    return reduce(add, (f.reindex(hours, fill_value=0) for f in frames))
+def total2(frames, calendar):
+    return sum(f.reindex(calendar.index, fill_value=0) for f in frames)
+def total3(frames):
+    hours = frames[0].index
+    for f in frames[1:]:
+        hours = hours.union(f.index)
+    return [f.reindex(hours) for f in frames]
+'''
+
+
+def partial_reindex_targets(tree):
+    """[(function, reindex call, collection name)]: every member of a collection L is re-indexed onto an index that is computed
+    from *some* members of L only (`L[0]`, `L[-1]`): the labels the other members have and these lack are dropped with their
+    values. An index computed by going over L (loop, comprehension, reduce, map) or from something else is not judged."""
+    from ..astutil import fully_expanded, single_assignments
+    out = []
+    for fn in [f for f in ast.walk(tree) if isinstance(f, ast.FunctionDef)]:
+        loops = []       # (element name, collection name)
+        for n in ast.walk(fn):
+            gens = n.generators if isinstance(n, (ast.ListComp, ast.GeneratorExp, ast.SetComp, ast.DictComp)) else (
+                [n] if isinstance(n, ast.For) else [])
+            for g in gens:
+                if isinstance(g.target, ast.Name) and isinstance(g.iter, ast.Name):
+                    loops.append((n, g.target.id, g.iter.id))
+        if not loops:
+            continue
+        for host, el, L in loops:
+            for c in [x for x in ast.walk(host) if isinstance(x, ast.Call) and isinstance(x.func, ast.Attribute)
+                      and x.func.attr == "reindex" and isinstance(x.func.value, ast.Name) and x.func.value.id == el and x.args]:
+                tgt = c.args[0]
+                names_rebound = {x.id for x in ast.walk(fn) if isinstance(x, ast.Name) and isinstance(x.ctx, ast.Store)}
+                # an index refined in a loop (hours = hours.union(f.index)) is computed by going over something: not judged
+                if isinstance(tgt, ast.Name) and tgt.id not in single_assignments(fn):
+                    continue
+                # (expanded, but for the collection itself: its name is what is looked for)
+                from ..astutil import substitute
+                m_ = {k_: v_ for k_, v_ in single_assignments(fn).items() if k_ != L}
+                e = tgt
+                for _ in range(4):
+                    e2 = substitute(e, m_)
+                    if ast.dump(e2) == ast.dump(e):
+                        break
+                    e = e2
+                uses = [x for x in ast.walk(e) if isinstance(x, ast.Name) and x.id == L]
+                if not uses:
+                    continue
+                for n_ in ast.walk(e):
+                    for ch in ast.iter_child_nodes(n_):
+                        ch._p = n_
+                partial = all(isinstance(getattr(u_, "_p", None), ast.Subscript) and u_._p.value is u_
+                              and not isinstance(u_._p.slice, ast.Slice) for u_ in uses)
+                if partial:
+                    out.append((fn, c, L))
+    return out
+
+
+@rule("R-REINDEXCOVER")
+def r_reindexcover(E):
+    pm = E.pm
+    res = RuleResult("R-REINDEXCOVER", "when every member of a collection of series is re-indexed onto one index before they "
+                                       "are combined, that index is computed from all the members (or from something else), "
+                                       "not from a few of them picked by position: `reindex` drops the labels its target "
+                                       "lacks, so hours that only a middle term has vanish from the sum with their values")
+    for mod, (rel, tree, src) in sorted(pm.modules.items()):
+        res.instances += len([c for c in ast.walk(tree) if isinstance(c, ast.Call) and isinstance(c.func, ast.Attribute)
+                              and c.func.attr in ("reindex", "add", "join", "union")])
+        for fn, c, L in partial_reindex_targets(tree):
+            res.findings.append(Finding(
+                "R-REINDEXCOVER", f"{rel}:{fn.name} :: {norm(c)[:70]}",
+                f"{fn.name} re-indexes every member of `{L}` with `{norm(c)[:70]}`, but the target index is computed from "
+                f"members picked by position only (`{L}[0]`, `{L}[-1]` …): an hour that the other members have and these lack "
+                f"is dropped from the result together with its values (a series with a gap, shifted by a few hours)",
+                rel, c.lineno, fn.name, {"clauses": _area(rel)}))
+    pos = partial_reindex_targets(set_parents(ast.parse(_RC_POSITIVE)))
+    neg = partial_reindex_targets(set_parents(ast.parse(_RC_NEGATIVE)))
+    if len(pos) != 1 or neg:
+        raise AnalysisError(f"R-REINDEXCOVER: embedded examples: {len(pos)} of 1 positive recognised, {len(neg)} false reports")
+    res.instances += 1
+    res.samples = [{"embedded_positive_example_recognised": True, "embedded_twins_silent": True}]
+    res.floor = 10
+    return res
+
+
 # ---------------------------------------------------------------------------------------------- R-ORDEFAULT
 @rule("R-ORDEFAULT")
 def r_ordefault(E):
